@@ -47,8 +47,10 @@ func c15(c *Ctx) {
 			reach := an.Explore(fn, an.After(w.Instr), nil, nil)
 			var bad []string
 			for _, ret := range reach.Returns() {
-				if reach.EvalAt(ret.Results[len(ret.Results)-1], ret) != an.Nil {
-					bad = append(bad, c.InstrPos(ret))
+				for _, alt := range reach.Alts(ret) {
+					if reach.EvalAt(alt.Results[len(ret.Results)-1], ret) != an.Nil {
+						bad = append(bad, c.InstrPos(ret))
+					}
 				}
 			}
 			r.Check(len(bad) == 0, "TXN", key, c.InstrPos(w.Instr), "only nil-error returns are reachable after this write",
@@ -136,11 +138,13 @@ func c15(c *Ctx) {
 			reach := an.Explore(fn, an.After(cl), an.Facts{errVal: an.NonNil}, nil)
 			var bad []string
 			for _, ret := range reach.Returns() {
-				rv := ret.Results[len(ret.Results)-1]
-				if rv == errVal || reach.EvalAt(rv, ret) == an.NonNil {
-					continue
+				for _, alt := range reach.Alts(ret) {
+					rv := alt.Results[len(ret.Results)-1]
+					if rv == errVal || reach.EvalAt(rv, ret) == an.NonNil {
+						continue
+					}
+					bad = append(bad, c.InstrPos(ret))
 				}
-				bad = append(bad, c.InstrPos(ret))
 			}
 			r.Check(len(bad) == 0, "ERR", key, c.InstrPos(cl), "a non-nil error always leads to an error return",
 				"although "+callee.Name()+" failed, a return with a possibly nil error is reachable at "+strings.Join(bad, ", "))
@@ -180,8 +184,10 @@ func c15(c *Ctx) {
 		reach := an.Explore(tf, nil, f, nil)
 		bad := false
 		for _, ret := range reach.Returns() {
-			if reach.EvalAt(ret.Results[0], ret) != an.False {
-				bad = true
+			for _, alt := range reach.Alts(ret) {
+				if reach.EvalAlt(alt, 0) != an.False {
+					bad = true
+				}
 			}
 		}
 		r.Check(len(f) >= 1 && !bad, "PATH", fkey(tf)+"/only-labelled-roots", c.Pos(tf.Pos()), "true only for quotas labelled is-root=true", sprintf("IsTreeRootQuota can return true for a quota without the is-root label (%d label tests recognised): such a quota skips the check that its children's mins sum to at most its own min", len(f)))
@@ -490,8 +496,10 @@ func c15acyclic(c *Ctx, up *ssa.Function) {
 		rw := an.Explore(wf, nil, f, func(in ssa.Instruction) bool { return in.Block() == hdr })
 		var skip []string
 		for _, ret := range rw.Returns() {
-			if rw.EvalAt(ret.Results[0], ret) != an.NonNil {
-				skip = append(skip, c.InstrPos(ret))
+			for _, alt := range rw.Alts(ret) {
+				if rw.EvalAlt(alt, 0) != an.NonNil {
+					skip = append(skip, c.InstrPos(ret))
+				}
 			}
 		}
 		r.Check(len(f) >= 1 && len(skip) == 0, "ACYCLIC", fkey(wf)+"/walk-not-skippable", c.InstrPos(cmp), "for a non-root parent the ancestor walk is entered before any nil return", sprintf("%s can return nil for a non-root parent (at %s) without having compared any ancestor with the quota: a shortcut (e.g. 'no children yet') lets a quota become its own parent", wf.Name(), strings.Join(skip, ",")))
